@@ -9,8 +9,8 @@ from props import c02, c04
 from vlib import Result
 
 ID = "C15"
-LEAN_MODULES = ["NdInterp.Props.C15", "NdInterp.Props.RatTie", "NdInterp.Props.FormulaTie.Lin", "NdInterp.Props.FormulaTie.Bil", "NdInterp.Props.FormulaTie.SplSys", "NdInterp.Props.FormulaTie.SplEval", "NdInterp.Props.FormulaTie.PerSys", "NdInterp.Props.FormulaTie.PerWrap"]
-THEOREM_FILES = [("NdInterp/Props/C15.lean", "C15_"), ("NdInterp/Props/FormulaTie/Lin.lean", "FT_lin_"), ("NdInterp/Props/FormulaTie/Bil.lean", "FT_bil_"), ("NdInterp/Props/FormulaTie/SplSys.lean", "FT_spl_"), ("NdInterp/Props/FormulaTie/SplEval.lean", "FT_spl_"), ("NdInterp/Props/FormulaTie/PerSys.lean", "FT_per_"), ("NdInterp/Props/FormulaTie/PerWrap.lean", "FT_per_")]
+LEAN_MODULES = ["NdInterp.Props.C15", "NdInterp.Props.RatTie", "NdInterp.Props.FormulaTie.Lin", "NdInterp.Props.FormulaTie.Bil", "NdInterp.Props.FormulaTie.SplSys", "NdInterp.Props.FormulaTie.SplEval", "NdInterp.Props.FormulaTie.PerSys", "NdInterp.Props.FormulaTie.PerWrap", "NdInterp.Props.FormulaTie.Ctl"]
+THEOREM_FILES = [("NdInterp/Props/C15.lean", "C15_"), ("NdInterp/Props/FormulaTie/Lin.lean", "FT_lin_"), ("NdInterp/Props/FormulaTie/Bil.lean", "FT_bil_"), ("NdInterp/Props/FormulaTie/SplSys.lean", "FT_spl_"), ("NdInterp/Props/FormulaTie/SplEval.lean", "FT_spl_"), ("NdInterp/Props/FormulaTie/PerSys.lean", "FT_per_"), ("NdInterp/Props/FormulaTie/PerWrap.lean", "FT_per_"), ("NdInterp/Props/FormulaTie/Ctl.lean", "FT_ctl_")]
 RULE = ("metamorphic pairs on the real code. At Q (exact equality of rationals): data x c (any rational c, boundary derivative values "
         "x c), axis and queries x c>0 (FirstDeriv v/c, SecondDeriv v/c^2), common shift, superposition of two data sets (boundary values "
         "added); Linear, Bilinear (independent factors for x and y), every spline boundary configuration incl. Periodic and per-lane "
